@@ -26,6 +26,20 @@ func init() {
 	stdModels["encoding/binary.Size"] = binarySize
 	stdModels["io.ReadAll"] = ioReadAll
 	stdModels["io.Copy"] = ioCopyRecord
+	stdModels["crypto/rand.Read"] = cryptoRandRead
+}
+
+// crypto/rand.Read(b): fills b with arbitrary bytes and touches nothing else.
+func cryptoRandRead(x *Exec, fr *frame, ins ssa.CallInstruction, c *ssa.CallCommon, args []Val, st *State, r string) (Val, string) {
+	used("crypto/rand.Read(b): writes arbitrary bytes into b only; returns (len(b), nil) or an error")
+	buf := args[0]
+	mem := st.Mem
+	h := x.vc.declMem("Mh")
+	cond := and(eq("r", buf[0].T), sx("<=", buf[1].T, "o"), sx("<", "o", add(buf[1].T, buf[2].T)))
+	st.Mem = x.vc.defMem(ite(cond, sel(h, "r", "o"), sel(mem, "r", "o")))
+	x.vc.S.fact(r, fmt.Sprintf("(forall ((o Int)) (! (and (<= 0 (%s %s o)) (<= (%s %s o) 255)) :pattern ((%s %s o))))", h, buf[0].T, h, buf[0].T, h, buf[0].T))
+	res := x.opaqueCall("crypto/rand.Read", c.Signature().Results(), st, r)
+	return res, r
 }
 
 // io.Copy(dst, bytes.NewReader(b)) where dst is a *T whose Write method is under contract:
